@@ -54,7 +54,7 @@ def write(t, doc) -> bytes:
 
 def _variant(doc) -> int:
     import zlib
-    return zlib.crc32(json.dumps(doc, sort_keys=True, default=str).encode("utf-8"))
+    return zlib.crc32(repr(doc).encode("utf-8", "replace"))
 
 
 COMMON = gen.Profile("common", strings="alpha", bool_with_01=False, numeric_strings=False, none=False, big_ints=False, floats=True,
@@ -115,3 +115,62 @@ def gen_pair_for_type(r, t, equal=False):
     if equal:
         return c["a"], copy.deepcopy(c["a"])
     return c["a"], c["b"]
+
+
+def rich_data(r, t, depth=0):
+    """Type-specific document features beyond the common domain: null, empty containers, and for YAML / pickle also
+    non-string mapping keys (int, float, bool), which those formats allow."""
+    x = r.random()
+    if depth >= 3 or x < 0.4:
+        return r.choice(["a", "xy", "", 0, 1, 2, 7, -3, 1.5, True, False, None, "line1\nline2", "é", "1", "true", "null", " padded "])
+    if x < 0.65:
+        return [rich_data(r, t, depth + 1) for _ in range(r.randint(0, 3))]
+    d = {}
+    for _ in range(r.randint(0, 4)):
+        if t in ("yaml", "pickle") and r.random() < 0.5:
+            k = r.choice([1, 2, 10, -1, 2.5, True, False] + ([None] if t == "yaml" else []))
+        else:
+            k = r.choice(["a", "b", "key", "k2", "", "x y"])
+        d[k] = rich_data(r, t, depth + 1)
+    return d
+
+
+def tag(o):
+    """JSON-serialisable form of a document that may have non-string keys (inverse: families.dec)."""
+    if isinstance(o, dict):
+        if all(isinstance(k, str) and not k.startswith("$") for k in o):
+            return {k: tag(v) for k, v in o.items()}
+        return {"$dict": [[k, tag(v)] for k, v in o.items()]}
+    if isinstance(o, list):
+        return [tag(v) for v in o]
+    return o
+
+
+def gen_rich_pair(r, t):
+    a = rich_data(r, t)
+    if not isinstance(a, (dict, list)):
+        a = {"k": a} if r.random() < 0.5 else [a]
+    b = copy.deepcopy(a)
+    # a few edits of known kinds
+    def walk(o):
+        if isinstance(o, dict):
+            for k in list(o):
+                if r.random() < 0.3:
+                    o[k] = rich_data(r, t, 2)
+                else:
+                    walk(o[k])
+            if r.random() < 0.4:
+                nk = r.choice([3, 4.5, "new", "zz", False] if t in ("yaml", "pickle") else ["new", "zz"])
+                o[nk] = rich_data(r, t, 2)
+            if o and r.random() < 0.3:
+                del o[r.choice(list(o))]
+        elif isinstance(o, list):
+            for i in range(len(o)):
+                if r.random() < 0.3:
+                    o[i] = rich_data(r, t, 2)
+                else:
+                    walk(o[i])
+            if r.random() < 0.4:
+                o.insert(r.randint(0, len(o)), rich_data(r, t, 2))
+    walk(b)
+    return tag(a), tag(b)
